@@ -10,7 +10,7 @@ import ticc_util as tu
 from common import show_list, frac_str
 
 LEVEL = "proof"
-LEAN_PROPS = ["FastTicc.Props.C08", "FastTicc.Props.C08b", "FastTicc.Props.PySort"]
+LEAN_PROPS = ["FastTicc.Props.C08", "FastTicc.Props.C08b", "FastTicc.Props.PySort", "FastTicc.Props.PyWhile"]
 LEAN_TRANSLATED = {"FastTicc.Props.TrDonors": ["_find_ranked_donor_cluster_ids"],
                    "FastTicc.Props.TrFindDonor": ["_find_point_donor"]}
 LEAN_HELPERS = ["FastTicc.Proofs.Repop"]
